@@ -12,7 +12,7 @@ import zlib
 import numpy as np
 import pandas as pd
 
-GEN_VERSION = 3
+GEN_VERSION = 4
 
 STATES = ["AA", "BB", "CC", "DD"]
 CLASSES = ["urban", "suburban", "rural", "exurb"]
@@ -189,6 +189,10 @@ def make_feed(rng, el, o=None):
     pre, truth = el.pre, el.truth.set_index("geographic_unit_fips")
     rows, status = [], {}
     order = rng.permutation(len(pre))
+    if n_missing and rng.random() < 0.5:
+        # prefer zero-baseline units (conjunction "missing from the feed AND outside the model")
+        zb = [i for i in order.tolist() if pre.baseline_turnout.iloc[i] == 0]
+        order = np.array(zb + [i for i in order.tolist() if i not in set(zb)])
     miss = set(order[:n_missing].tolist()) if n_missing else set()
     for i in range(len(pre)):
         r = pre.iloc[i]
